@@ -686,24 +686,20 @@ class Ownership:
                     adds, removes, val = _classify_mutation(m)
                     key = "%s:%s" % (f.qualname, _norm(unparse(m))[:40])
                     if adds:
-                        ok = False
-                        for hn, h in add_hooks:
-                            if not _dominates_or_loop_dominates(cfg, hn, h, nm):
-                                continue
-                            if len(h.args) == 1 and _same_value(h.args[0], val, h, al):
-                                ok = True
+                        good = [(hn, h) for hn, h in add_hooks
+                                if len(h.args) == 1 and _same_value(h.args[0], val, h, al)]
+                        ok = _hooks_cover(cfg, good, nm)
                         self.add("C04", "R03.3", key + ":add-hook", ok, f.loc(m),
                                  "store insertion %s in %s is not preceded on every path by the "
                                  "ownership hook self._add(<the inserted value>)"
                                  % (unparse(m)[:50], f.qualname), 2)
                     if removes:
-                        ok = False
+                        good = []
                         for hn, h in rm_hooks:
-                            if not _dominates_or_loop_dominates(cfg, hn, h, nm):
-                                continue
                             a0 = h.args[0] if len(h.args) == 1 else None
                             if isinstance(a0, ast.Subscript) and expand_path(a0.value, al) == (me, "_data"):
-                                ok = True
+                                good.append((hn, h))
+                        ok = _hooks_cover(cfg, good, nm)
                         self.add("C04", "R03.3", key + ":remove-hook", ok, f.loc(m),
                                  "store removal %s in %s is not preceded on every path by the "
                                  "ownership hook self._remove(self._data[k])"
@@ -1006,6 +1002,28 @@ def _same_value(hook_arg: ast.AST, stored: Optional[ast.AST], hook: ast.Call,
                 return isinstance(base, ast.Name) and base.id == cur.iter.id
             cur = getattr(cur, "_parent", None)
     return False
+
+
+def _hooks_cover(cfg: CFG, hooks: List[Tuple[int, ast.Call]], target: int) -> bool:
+    """every path to ``target`` runs one of the hooks, or passes a loop every iteration of which
+    runs one (a loop over the elements concerned: zero elements need no hook) — the hooks may sit
+    in different branches"""
+    if not hooks:
+        return False
+    hits: Set[int] = set()
+    for hn, h in hooks:
+        hits.add(hn)
+        cur = getattr(h, "_parent", None)
+        while cur is not None and cur is not cfg.fn:
+            if isinstance(cur, ast.For):
+                head = cfg.by_ast.get(id(cur))
+                if head:
+                    body_in = [s for s in cfg.g.successors(head)
+                               if cfg.info[s].kind == "branch" and cfg.info[s].value]
+                    if body_in and cfg.path_avoiding(body_in[0], head, {hn}) is None:
+                        hits.add(head)
+            cur = getattr(cur, "_parent", None)
+    return cfg.path_avoiding(cfg.entry, target, hits) is None
 
 
 def _dominates_or_loop_dominates(cfg: CFG, hn: int, h: ast.Call, target: int) -> bool:
